@@ -304,3 +304,13 @@ def test_c13_worker_dying_with_the_queue_lock_held_does_not_hang(tmp_path):
         except ProcessLookupError:
             pass
     assert rc not in (0, "hang"), rc
+
+
+def test_c19_only_a_run_of_matches_is_a_perfect_alignment(tmp_path):
+    from gaftools.cli.stat import run_stat
+
+    base = "r{n}\t16\t0\t8\t+\t>s1\t20\t0\t8\t{m}\t8\t60\ttp:A:P\tcg:Z:{cg}\n"
+    gaf = w(tmp_path / "a.gaf", base.format(n=1, m=0, cg="8X") + base.format(n=2, m=8, cg="8=") + base.format(n=3, m=0, cg="8I"))
+    rep = str(tmp_path / "rep.txt")
+    run_stat(gaf_path=gaf, cigar_stat=True, output=rep)
+    assert "Total perfect alignments (exact match): 1" in open(rep).read()  # 3 before the fix
